@@ -222,6 +222,8 @@ func init() {
 			c09("H_close_drain", nil, "quick", 2),
 			c09("H_two_consumers", nil, "quick", 2),
 			c09("H_close_race", nil, "quick", 2),
+			c09("H_close_accounting", nil, "quick", 2),
+			c09("H_close_accounting", nil, "thorough", 3),
 			c09("H_pc", map[string]int{"producers": 2}, "thorough", 2),
 			c09("H_two_consumers", nil, "thorough", 3),
 			c09("H_close_race", nil, "thorough", 4),
@@ -229,7 +231,7 @@ func init() {
 		},
 		Rule:        rule + "; goroutines of the harness and the real Channel methods run as engine threads under a baton; at every visible operation (go, chan send/recv/close/len, WaitGroup ops, accesses to Channel.closed) the scheduler decision is a recorded choice and all alternatives are explored, with preemption bounding; Go channels are modelled exactly (FIFO buffer, rendezvous with parked senders and receivers, select with nondeterministic choice among ready cases, close wakes parked senders with a panic), sync.Mutex and sync.Cond at contract level; a vector-clock happens-before relation flags unordered conflicting accesses to Channel.closed; capacity 0..2 enumerated, payloads symbolic",
 		Assumptions: []string{"bounded: <= 3 goroutines besides main, <= 2 channel operations per goroutine, preemption bound 2 (1 for two producers) in the quick tier, 2-4 in the thorough tier", "schedule counterexamples replay deterministically in the engine; native confirmation by the directed twin N_close_parked (sender parked on an unbuffered channel, then Close)"},
-		Outside:     []string{"more than 3 goroutines / 2 operations each, capacities 3-4", "script-level spawn closures sharing a frame", "seeded stress under the race detector (different technique family)"},
+		Outside:     []string{"more than 4 goroutines / 2 operations each, capacities 3-4 (H_close_accounting: two senders, one receive, close, drain at capacities 0 and 1: a send reports success iff its value is received exactly once)", "script-level spawn closures sharing a frame", "seeded stress under the race detector (different technique family)"},
 	})
 
 	reg(Check{
